@@ -117,7 +117,10 @@ class Prop(BaseProp):
         ops = [("ckd_chain", [a]), ("ckd_chain", [a + 7]), ("ckd_chain", [a + 2]), ("gen_children", [], a, a + 3),
                ("by_path", "m/%d/1" % (a + 1)), ("by_path", "m/%d/0" % (a + 9)), ("by_path", "m/%d" % (a + 4)), ("gen_children", [], a + 1, a + 5),
                ("gen_children", [], a, a + 3), ("ckd_chain", [H + 1]), ("ckd_chain", [H + 5, 1]), ("ckd_chain", [H + 3]), ("gen_children", [], H + 1, H + 4),
-               ("gen_children", [], a, a + 5), ("gen_children", [], a + 1, a + 4)]
+               ("gen_children", [], a, a + 5), ("gen_children", [], a + 1, a + 4),
+               # consecutive look-ups whose path STRINGS are prefixes of each other although the paths are not
+               ("by_path", "m/0/1"), ("by_path", "m/0/15"), ("by_path", "m/44'/0'/0"), ("by_path", "m/44'/0'/0'"), ("by_path", "m/4"), ("by_path", "m/44'/0'"),
+               ("by_path", "m/1"), ("by_path", "m/1/2"), ("by_path", "m/1/2/3"), ("by_path", "m/1/2"), ("by_path", "m/1/20"), ("by_path", "m"), ("by_path", "m/1")]
         cases.append({"kind": "Hist", "seed": seed, "testnet": False, "ops": ops, "threads": 0})
         seed = bytes(rng.randrange(256) for _ in range(32)).hex()
         ops = [self.rand_op(rng) for _ in range(12 if T else 8) if True]
